@@ -32,6 +32,8 @@ type DAG struct {
 	Quiet  bool
 	// Gets records the CIDs fetched (in order), for oracles about what was requested.
 	Gets []cid.Cid
+	// FailKeys lists CIDs (KeyString) whose fetch always fails with ErrInjected.
+	FailKeys map[string]bool
 	// Pre, when set, is called at every operation before the context check.
 	Pre func(op string)
 	// Names gives stable short names to CIDs for the event log.
@@ -98,6 +100,12 @@ func (d *DAG) Get(ctx context.Context, c cid.Cid) (ipld.Node, error) {
 		return nil, err
 	}
 	d.Gets = append(d.Gets, c)
+	if d.FailKeys[c.KeyString()] {
+		if d.S != nil {
+			d.S.Fault("dag-get-node-error")
+		}
+		return nil, ErrInjected
+	}
 	n, ok := d.Nodes[c.KeyString()]
 	if !ok {
 		return nil, ipld.ErrNotFound{Cid: c}
